@@ -37,6 +37,8 @@ class Knobs:
     max_modules: int = 6
     allow_relative: bool = True
     single_reexporter: bool = False   # an object is re-exported (listed in __all__ by an importer) at most once
+    field_names_submodule: float = 0.0   # a package docstring with a @var/@ivar/@cvar/@type field that names one of its sub-modules
+    summary_root_names: float = 0.0   # a root named like a summary page (classIndex, index, moduleIndex, ...)
     member_alias: float = 0.0   # module-level alias of a class member (`meth = C.meth`), importable and re-exportable like a function
 
 
@@ -63,6 +65,11 @@ class Gen:
         nroots = rng.choice([1, 1, 1, 2])
         budget = rng.randint(1, self.k.max_modules)
         rootnames = rng.sample(["pkg", "lib", "app", "mod", "util"], nroots)
+        if self.k.summary_root_names and rng.random() < self.k.summary_root_names:
+            if nroots == 1 and rng.random() < 0.7:
+                rootnames.append(rng.choice(["lib", "app"]) + "2")
+            rootnames[rng.randrange(len(rootnames))] = rng.choice(
+                ["classIndex", "index", "moduleIndex", "nameIndex", "undoccedSummary", "all-documents".replace("-", "_"), "classIndex"])
 
         def grow(q, parent, depth):
             nonlocal budget
@@ -130,6 +137,10 @@ class Gen:
         origins: Dict[str, List[tuple]] = {}
         if rng.random() < 0.3:
             lines.append('"""module %s"""' % q)
+        elif ispkg and self.k.field_names_submodule and rng.random() < self.k.field_names_submodule:
+            subs = [u[0].rsplit(".", 1)[1] for u in all_units if u[2] == q]
+            if subs:
+                lines.append('"""package %s\n\n@%s %s: see the sub-module\n"""' % (q, rng.choice(["var", "var", "ivar", "cvar", "type"]), rng.choice(subs)))
         others = [u for u in all_units if u[0] != q]
         # imports
         for _ in range(rng.randint(0, 3)):
